@@ -108,7 +108,12 @@ class Multiplication:
     cpy = segment.clone()
     cpy.name = clone_name
     cpy.connect(self)
+    cloned = set()
     for l in segment.dovetails + segment.containments:
+      if id(l) in cloned:
+        # a circular edge is listed once for each of its two sides
+        continue
+      cloned.add(id(l))
       lc = l.clone()
       if lc.from_segment == segment.name:
         lc.from_segment = clone_name
